@@ -304,6 +304,27 @@ def g_structured(repo):
     return g
 
 
+def g_failed(repo):
+    """C08 / C09: report_all_failed_clauses_for_rules itself (the callee U-simpl assumes)"""
+    g = GroupBuild('failed', repo)
+    g.raw('prelude_common.rs')
+    g.raw('prelude_failed.rs')
+    eval_types(g)
+    EC = RULES + 'eval_context.rs'
+    PV = RULES + 'path_value.rs'
+    g.type(PV, 'Location', derive=None)
+    g.type(PV, 'Path', derive=None)
+    g.type(EC, 'EventRecord', derive=None)
+    for t in ('Messages', 'RuleReport', 'UnaryComparison', 'ValueUnResolved', 'UnaryCheck', 'UnaryReport', 'BinaryComparison', 'InComparison',
+              'BinaryCheck', 'BinaryReport', 'GuardClauseReport', 'DisjunctionsReport', 'GuardBlockReport', 'ClauseReport'):
+        g.type(EC, t, derive=None)
+    g.raw('spec_failed.rs')
+    g.fn('U-qr-resolved', RULES + 'mod.rs', 'resolved', impl=r'impl QueryResult', spec='qr_resolved.spec', wrap_impl='impl QueryResult', props=['C08', 'C09'])
+    g.fn('U-qr-unresolved', RULES + 'mod.rs', 'unresolved_traversed_to', impl=r'impl QueryResult', spec='qr_unresolved.spec', wrap_impl='impl QueryResult', props=['C08', 'C09'])
+    g.fn('U-failed-v', EC, 'report_all_failed_clauses_for_rules', spec='failed_clauses.spec', props=['C08', 'C09'])
+    return g
+
+
 def g_tracker(repo):
     g = GroupBuild('tracker', repo)
     g.raw('prelude_common.rs')
@@ -389,4 +410,4 @@ def g_tables(repo):
     return g
 
 
-GROUPS = {'structured': g_structured, 'validate_data': g_validate_data, 'memo': g_memo, 'memo_block': g_memo_block, 'compare': g_compare, 'tables': g_tables, 'index2': g_index2, 'index': g_index, 'tracker': g_tracker, 'validate': g_validate, 'eval_blocks': g_eval_blocks, 'report': g_report, 'merge': g_merge, 'status': g_status, 'exit': g_exit, 'eval': g_eval, 'eval_disp': g_eval_disp}
+GROUPS = {'failed': g_failed, 'structured': g_structured, 'validate_data': g_validate_data, 'memo': g_memo, 'memo_block': g_memo_block, 'compare': g_compare, 'tables': g_tables, 'index2': g_index2, 'index': g_index, 'tracker': g_tracker, 'validate': g_validate, 'eval_blocks': g_eval_blocks, 'report': g_report, 'merge': g_merge, 'status': g_status, 'exit': g_exit, 'eval': g_eval, 'eval_disp': g_eval_disp}
